@@ -66,7 +66,7 @@ add("C13", "exploration", EXPL,
     "Real MaxChannelsPerKey over real BaseChannels fed by a scripted listener: batches of arrive/close with the listener polled at tape-chosen points, 40% of batches making a close and a same-key arrival pending at one poll; keys whose hashes collide, limits 1-3 and u32::MAX, and rarely a crowd of about a thousand keys that mostly leave before the rest is tried again; a reference map of live channels per key decides over-limit, over-shed and capacity freeing.",
     "Drops of admitted channels are atomic harness steps.", "DESIGN.md §5 C13, §7 D3")
 add("C15", "exploration", EXPL,
-    "Sequences of 0-12 protocol messages (all variants, boundary ids and trace ids, empty/unicode/64 KiB bodies, every io::ErrorKind) through the shipped serde transport with JSON and bincode over a SimPipe that fragments reads and writes (down to byte-by-byte), returns Pending, limits capacity and adds latency, and through the in-memory bounded/unbounded channels; reader's items must equal writer's, then end-of-stream; hand-built JSON frames omit optional fields.",
+    "Sequences of 0-12 protocol messages (all variants, boundary ids and trace ids, empty/unicode/64 KiB bodies, every io::ErrorKind) through the shipped serde transport with JSON and bincode over a SimPipe that fragments reads and writes (down to byte-by-byte), returns Pending, limits capacity and adds latency, and through the in-memory bounded/unbounded channels, with the default 4-byte and with a 2-byte length prefix (a message it cannot express is refused at the sink; whatever was accepted must arrive); reader's items must equal writer's, then end-of-stream; hand-built JSON frames omit optional fields.",
     "Split positions are sampled by the tape, not enumerated.", "DESIGN.md §5 C15, §7 D1")
 
 add("C20", "exploration", EXPL,
